@@ -3,6 +3,7 @@ package main
 import (
 	"fmt"
 	"strings"
+	"sync"
 	"sync/atomic"
 
 	"github.com/flosch/pongo2/v6"
@@ -467,9 +468,112 @@ func c10ManyBlockExecutions(c *C) {
 	c.Nontrivial(fmt.Sprintf("manyblocks:%d:%s:%s:%s:%s", n, baseHook, baseRow, childHook, childRow))
 }
 
+// c10StoredBlockInfo: the block information of a running block kept in a variable ({% set saved = block %}) keeps
+// denoting THAT block: saved.Super - asked for later, after other blocks ran, inside another block - is the next
+// less-derived definition of the block it was taken from.
+func c10StoredBlockInfo(c *C) {
+	cases := []struct {
+		files map[string]string
+		entry string
+		want  string
+	}{
+		{map[string]string{"/base.tpl": "{% block a %}A0{% endblock %}|{% block b %}B0{% endblock %}|{{ saved.Super }}",
+			"/child.tpl": `{% extends "/base.tpl" %}{% block a %}{% set saved = block %}A1{% endblock %}{% block b %}B1{% endblock %}`}, "/child.tpl", "A1|B1|A0"},
+		{map[string]string{"/base.tpl": "{% block a %}A0{% endblock %}|{% block b %}B0{% endblock %}|{{ saved.Super }}",
+			"/mid.tpl":  `{% extends "/base.tpl" %}{% block a %}A1<{{ block.Super }}>{% endblock %}{% block b %}B1<{{ block.Super }}>{% endblock %}`,
+			"/leaf.tpl": `{% extends "/mid.tpl" %}{% block a %}{% set saved = block %}A2<{{ block.Super }}>{% endblock %}{% block b %}B2<{{ block.Super }}>{% endblock %}`}, "/leaf.tpl", "A2<A1<A0>>|B2<B1<B0>>|A1<A0>"},
+		{map[string]string{"/base.tpl": "{% block a %}A0{% endblock %}|{% block b %}B0{% endblock %}|{{ saved.Super }}",
+			"/inner.tpl": `{% extends "/base.tpl" %}{% block a %}{% set saved = block %}A1{% endblock %}{% block b %}[{{ saved.Super }}]{% endblock %}`}, "/inner.tpl", "A1|[A0]|A0"},
+		{map[string]string{"/base.tpl": "{% block a %}A0{% endblock %}|{% for x in rows %}{% block b %}B0{{ x }}{% endblock %}{% endfor %}|{{ saved.Super }}|{% block c %}C0{% endblock %}|{{ saved.Super }}",
+			"/loop.tpl": `{% extends "/base.tpl" %}{% block a %}{% set saved = block %}A1{% endblock %}{% block b %}B1{{ x }}<{{ block.Super }}>{% endblock %}{% block c %}C1<{{ block.Super }}>{% endblock %}`}, "/loop.tpl", "A1|B11<B01>B12<B02>|A0|C1<C0>|A0"},
+	}
+	for _, k := range cases {
+		set, _ := newSet(k.files)
+		tpl, err := set.FromFile(k.entry)
+		if err != nil {
+			c.Fail("inheritance-mismatch", D{"files": k.files, "error": err.Error()})
+			return
+		}
+		for run := 0; run < 2; run++ {
+			out, xerr := execSpread(tpl, pongo2.Context{"rows": []int{1, 2}}, uint64(c.Idx+run))
+			c.Eval(1)
+			if xerr != nil || out != k.want {
+				c.Fail("inheritance-mismatch", D{"files": k.files, "entry": k.entry, "output": q(out), "expected": q(k.want), "error": errStr(xerr), "execution": run,
+					"why": "block information stored in a variable and asked for Super after its block has ended and other blocks have run"})
+				return
+			}
+		}
+		c.Nontrivial("storedblock:" + k.entry)
+	}
+	c.Cover("stored_block_information")
+}
+
+// c10ConcurrentFirst: the FIRST executions of a freshly compiled template at the end of a long extends chain happen
+// on several goroutines at once: every one of them renders the base's document with the most-derived blocks
+// (whatever the engine works out lazily about the chain at the first execution is worked out under contention).
+func c10ConcurrentFirst(c *C) {
+	const depth = 400
+	files := map[string]string{"/c0.tpl": "<base>{% block b %}b0{% endblock %}|{% block k %}k0{% endblock %}</base>"}
+	for i := 1; i <= depth; i++ {
+		body := fmt.Sprintf("outside%d", i)
+		if i%100 == 0 {
+			body += fmt.Sprintf("{%% block k %%}k%d,{{ block.Super }}{%% endblock %%}", i)
+		}
+		if i == depth {
+			body += "{% block b %}leaf{% endblock %}"
+		}
+		files[fmt.Sprintf("/c%d.tpl", i)] = fmt.Sprintf("{%% extends \"/c%d.tpl\" %%}%s", i-1, body)
+	}
+	want := "<base>leaf|k400,k300,k200,k100,k0</base>"
+	for round := 0; round < 6; round++ {
+		set, _ := newSet(files)
+		tpl, err := set.FromFile(fmt.Sprintf("/c%d.tpl", depth))
+		if err != nil {
+			c.Fail("inheritance-mismatch", D{"chain_depth": depth, "error": err.Error()})
+			return
+		}
+		const k = 8
+		outs := make([]string, k)
+		errs := make([]error, k)
+		var ready, wg sync.WaitGroup
+		start := make(chan struct{})
+		for g := 0; g < k; g++ {
+			ready.Add(1)
+			wg.Add(1)
+			go func(g int) {
+				defer wg.Done()
+				ready.Done()
+				<-start
+				outs[g], errs[g] = tpl.Execute(nil)
+			}(g)
+		}
+		ready.Wait()
+		close(start)
+		wg.Wait()
+		c.Eval(k)
+		for g := 0; g < k; g++ {
+			if errs[g] != nil || outs[g] != want {
+				c.Fail("inheritance-mismatch", D{"chain_depth": depth, "round": round, "goroutine": g, "output": q(truncStr(outs[g], 300)), "expected": q(want), "error": errStr(errs[g]),
+					"why": "the first executions of a freshly compiled template (end of a 400-level extends chain) on 8 goroutines at once"})
+				return
+			}
+		}
+	}
+	c.Cover("concurrent_first_executions_of_a_deep_chain")
+	c.Nontrivial("concurrentfirst")
+}
+
 func c10Run(c *C) {
 	if c.Idx%500 == 251 {
 		c10ManyBlockExecutions(c)
+		return
+	}
+	if c.Idx%500 == 253 {
+		c10StoredBlockInfo(c)
+		return
+	}
+	if c.Idx%2000 == 255 {
+		c10ConcurrentFirst(c)
 		return
 	}
 	if c.Idx%20 == 17 {
